@@ -107,11 +107,46 @@ func tImp(a, b Term) Term {
 	return Term{app("=>", a.S, b.S), sBool}
 }
 
+// tCmp builds an integer comparison, folding numerals.
+func tCmp(op string, a, b Term) Term {
+	if isNumeral(a.S) && isNumeral(b.S) {
+		x, _ := new(big.Int).SetString(numStr(a.S), 10)
+		y, _ := new(big.Int).SetString(numStr(b.S), 10)
+		c := x.Cmp(y)
+		var r bool
+		switch op {
+		case "<":
+			r = c < 0
+		case "<=":
+			r = c <= 0
+		case ">":
+			r = c > 0
+		case ">=":
+			r = c >= 0
+		}
+		if r {
+			return tTrue
+		}
+		return tFalse
+	}
+	return Term{app(op, a.S, b.S), sBool}
+}
+
+func numStr(s string) string {
+	if strings.HasPrefix(s, "(- ") {
+		return "-" + s[3:len(s)-1]
+	}
+	return s
+}
+
 func tEq(a, b Term) Term {
 	if a.S == b.S {
 		return tTrue
 	}
 	if isNumeral(a.S) && isNumeral(b.S) {
+		return tFalse
+	}
+	if (a.S == "true" && b.S == "false") || (a.S == "false" && b.S == "true") {
 		return tFalse
 	}
 	return Term{app("=", a.S, b.S), sBool}
